@@ -168,10 +168,24 @@ def standard_run(pid, tier, units, n_quick, n_thorough, trusted, rule, level_par
             if rep.violations:
                 break
     if tier == "thorough" and not rep.broken:
-        rc, out = C.sh("timeout 1500 coqchk -silent -o %s SVP.%s 2>&1 | tail -n 40" % (
+        rc, out = C.sh("timeout 1500 coqchk -silent -o %s SVP.%s 2>&1" % (
             " ".join("-Q %s %s" % (d, l) for d, l in (("theories", "SV"), ("generated", "SVG"), ("props", "SVP"))), pid),
             cwd=C.COQ, timeout=1600)
-        rep.notes["coqchk"] = out[-2500:]
-        if "Modules were successfully checked" not in out:
-            rep.add_broken("coqchk props/%s" % pid, out[-800:])
+        tail = out[-2500:]
+        rep.notes["coqchk"] = tail
+        ok = rc == 0 and "CONTEXT SUMMARY" in tail
+        for key in ("type-in-type", "unsafe (co)fixpoints", "positivity is assumed"):
+            # each of these sections must read <none>
+            i = tail.find(key)
+            if i < 0 or "<none>" not in tail[i:i + len(key) + 12]:
+                ok = False
+        if ok:
+            # axioms reported by the independent checker must be on the allow-list too
+            i = tail.find("* Axioms:")
+            j = tail.find("* Constants/Inductives relying on type-in-type")
+            ax = [l.strip() for l in tail[i + 9:j].splitlines() if l.strip() and l.strip() != "<none>"]
+            rep.notes["coqchk_axioms"] = ax
+            rep.cov["trusted_base"].append("axioms of every loaded library as listed by coqchk -o (superset of Print Assumptions): " + ("; ".join(ax) or "none"))
+        else:
+            rep.add_broken("coqchk props/%s" % pid, tail[-800:])
     return rep.finish()
